@@ -28,7 +28,7 @@ MANIFEST = {
              "chain length (chains 2..7). Complemented by concrete replays (NOT solver-decided, labelled '[native replay]'): "
              "real nrpickler.dumps -> pickle.loads round trips of every explored graph shape for protocols 0-5 "
              "(classes, uids, attributes, ordered links / ends / members, sharing, BFS order, graph untouched by dumps), "
-             "fresh-interpreter loads with caching on and off for a sample, and a 3000-deep chain under recursion limit 500.",
+             "fresh-interpreter loads with caching on and off for a sample, payloads above the 64 KiB framing threshold, value-hashed subclasses dumped from a member vertex, and a 3000-deep chain under recursion limit 500.",
     "note": "Outside the solver-decided claim: the correctness of pickle/dill themselves and the real byte stream (only "
             "replayed), graphs beyond the bound. Assumed in the main configurations: action "
             "programs are well-founded (an object saves an object of smaller-or-equal index only after its own memoize), "
@@ -172,7 +172,7 @@ def configs(tier):
            {"mode": "stream", "nobj": 2, "nact": 3, "leaf": True},
            # objects that memoise themselves after their children (tuples, by-value classes): known finding C10-KF1
            {"mode": "stream", "nobj": 2, "nact": 3, "late_memo": True},
-           {"mode": "kf_tuple"}, {"mode": "kf_byvalue"}]
+           {"mode": "kf_tuple"}, {"mode": "kf_byvalue"}, {"mode": "valuehash"}]
     if tier != "quick":
         out.append({"mode": "stream", "nobj": 2, "nact": 4})
         out.append({"mode": "stream", "nobj": 3, "nact": 2, "leaf": True})
@@ -381,6 +381,42 @@ print(type(dill.loads(data)).__name__)
 '''
 
 
+VALUEHASH = r'''
+import pickle
+from edgegraph.structure import Vertex, Universe, DirectedEdge
+from edgegraph.output import nrpickler
+class Station(Vertex):
+    def __eq__(self, other):
+        return type(other).__qualname__ == "Station" and self.name == other.name
+    def __hash__(self):
+        return hash(self.name)
+u = Universe()
+sts = [Station(attributes={"name": n}, universes=[u]) for n in ("a", "b", "c")]
+for i in range(3):
+    DirectedEdge(sts[i], sts[(i + 1) % 3])
+for proto in range(2, 6):
+    c = pickle.loads(nrpickler.dumps(sts[0], protocol=proto))
+    cu = c.universes[0]
+    assert [v.name for v in cu.vertices] == ["a", "b", "c"] and cu.vertices[0] is c
+    assert [l.v2.name for v in cu.vertices for l in v.links if l.v1 is v] == ["b", "c", "a"]
+print("OK")
+'''
+
+
+def native_valuehash(B):
+    """[native replay] vertices that hash / compare by an attribute value, dumped from a member vertex: while the
+    copy is being rebuilt such an object cannot be hashed yet, so nothing may hash graph objects during loading"""
+    root = os.environ.get("EDGEGRAPH_ROOT", "/repo")
+    env = dict(os.environ)
+    env["PYTHONPATH"] = root
+    try:
+        r = subprocess.run([sys.executable, "-c", VALUEHASH], env=env, capture_output=True, text=True, timeout=60)
+        ok, why = (r.returncode == 0 and r.stdout.strip() == "OK"), (r.stderr.strip().splitlines() or [""])[-1]
+    except subprocess.TimeoutExpired:
+        ok, why = False, "no result after 60 s"
+    B.prove(f"[native replay] a graph of value-hashed Vertex subclass instances dumped from a member vertex loads back {why}", ok)
+
+
 def native_kf_tuple(B):
     import pickle
     from edgegraph.output import nrpickler
@@ -412,10 +448,10 @@ def native_kf_byvalue(B):
 
 
 def scenario(B, p):
-    if p["mode"] in ("kf_tuple", "kf_byvalue"):
+    if p["mode"] in ("kf_tuple", "kf_byvalue", "valuehash"):
         B.reach("roundtrip")
         B.prove("(solver side: nothing to decide; the obligation is the native replay)", True)
-        B.native_only(native_kf_tuple if p["mode"] == "kf_tuple" else native_kf_byvalue)
+        B.native_only({"kf_tuple": native_kf_tuple, "kf_byvalue": native_kf_byvalue, "valuehash": native_valuehash}[p["mode"]])
         return
     if p["mode"] == "stream":
         nobj, nact = p["nobj"], p["nact"]
